@@ -713,6 +713,45 @@ fn inclusion(rep: &Report, n: usize) -> Census {
 /// Limit ladders: conjunction chains that cross each consensus / standardness limit of their context
 /// by one step; each of the context's four validity functions must refuse exactly when the script's
 /// (separately validated) figure exceeds the Bitcoin limit, given here as literal numbers.
+/// The opcode limit against a count made from first principles (sat.rs budget_ladder): the context's
+/// local consensus check, the default parser and lift() refuse exactly the terms above 201.
+fn budget_ladder_check(rep: &Report) -> Census {
+    use miniscript::policy::Liftable;
+    use miniscript::ScriptContext;
+    let mut cen = Census::new();
+    for (name, t, total) in crate::sat::budget_ladder() {
+        let env = PkEnv { form: KeyForm::Compressed };
+        let ms = match build::<bitcoin::PublicKey, Segwitv0>(&t, &env) {
+            Ok(m) => m,
+            Err(_) => {
+                bump(&mut cen, "budget_terms_refused_by_from_ast");
+                continue;
+            }
+        };
+        bump(&mut cen, "budget_terms");
+        let over = total > 201;
+        let text = ms.to_string();
+        let verdicts = [
+            ("Segwitv0::check_local_consensus_validity", Segwitv0::check_local_consensus_validity(&ms).is_err()),
+            ("Miniscript::from_str_insane", Miniscript::<bitcoin::PublicKey, Segwitv0>::from_str_insane(&text).is_err()),
+            ("within_resource_limits", !ms.within_resource_limits()),
+            ("lift", ms.lift().is_err()),
+        ];
+        for (f, refused) in verdicts {
+            bump(&mut cen, "budget_checks");
+            if refused != over {
+                rep.violation(Violation {
+                    key: format!("C12|budget|{}|{}", name, f),
+                    class: format!("opcode-budget-{}-{}", f, name.split('@').next().unwrap_or("")),
+                    what: format!("{} {} a script whose worst path counts {} opcodes (limit 201): {} with 1-of-20 multisigs in every child position", f, if refused { "refuses" } else { "accepts" }, total, name),
+                    case: json!({"term": name, "worst_path_opcodes": total, "function": f}),
+                });
+            }
+        }
+    }
+    cen
+}
+
 fn limit_ladders(rep: &Report) -> Census {
     use miniscript::ScriptContext;
     let mut cen = Census::new();
@@ -976,6 +1015,7 @@ pub fn run(tier: Tier) -> i32 {
     let cen = inclusion(&rep, n_acc.min(5));
     rep.merge_counts(&cen);
     rep.merge_counts(&limit_ladders(&rep));
+    rep.merge_counts(&budget_ladder_check(&rep));
     let cen = lattice(&rep, n_mono);
     rep.merge_counts(&cen);
     rep.sample(json!({"switches": SWITCHES.iter().map(|s| format!("{:?}", s)).collect::<Vec<_>>()}));
